@@ -589,6 +589,8 @@ type Contract struct {
 	EntryHeld []Expr // locks the caller holds when it calls this function (`entry-held x.mu`): held exactly once at entry
 	AssumePre bool   // callee preconditions and run-time checks of this body are assumed, not checked (listed as unchecked)
 	Inline    bool   // the contract is verified for the body, but callers still inline the body (keeps dispatch precise)
+	AtReturns []*Clause
+	AtSends   []*AtCall
 	LockOnly  bool   // only the lock obligations (C18) are generated for the body; everything else is assumed
 	Ghost     string // free-form note
 	Fresh     []string
@@ -671,7 +673,7 @@ func parseTags(s string) (props []string, label string, rest string) {
 }
 
 var clauseKW = map[string]bool{"requires": true, "ensures": true, "assigns": true, "pure": true, "trusted": true, "loop": true,
-	"at-call": true, "func": true, "spec": true, "ghost": true, "lemma": true, "axiom": true, "iterated": true, "signal": true, "fresh": true, "cover": true, "nobody": true, "lockonly": true, "inline-at-calls": true, "assume-callee-pre": true, "entry-held": true, "blocking": true, "chaninv": true, "guarded": true, "ghost-set": true, "moninv": true, "opaque": true, "iterates": true}
+	"at-call": true, "at-return": true, "at-send": true, "func": true, "spec": true, "ghost": true, "lemma": true, "axiom": true, "iterated": true, "signal": true, "fresh": true, "cover": true, "nobody": true, "lockonly": true, "inline-at-calls": true, "assume-callee-pre": true, "entry-held": true, "blocking": true, "chaninv": true, "guarded": true, "ghost-set": true, "moninv": true, "opaque": true, "iterates": true}
 
 // LoadContractFile parses one contract file. pkgPath qualifies short function keys ("" for spec files,
 // whose keys are already fully qualified).
@@ -1034,6 +1036,33 @@ func (cs *ContractSet) LoadContractText(text, path, pkgPath string, external boo
 					return fail(err)
 				}
 				cur.AtCalls = append(cur.AtCalls, &AtCall{Callee: callee, Clause: *c})
+				for _, p := range c.Props {
+					cur.Props[p] = true
+				}
+			case "at-return":
+				// at-return assert [tags] expr : checked at every return, with the function's locals in scope (a local
+				// that is not in scope at a return is arbitrary there, so guard the clause with the results)
+				r := strings.TrimSpace(rest)
+				r = strings.TrimPrefix(r, "assert ")
+				c, err := mkClause(strings.TrimSpace(r))
+				if err != nil {
+					return fail(err)
+				}
+				cur.AtReturns = append(cur.AtReturns, c)
+				for _, p := range c.Props {
+					cur.Props[p] = true
+				}
+			case "at-send":
+				// at-send <pkg.Type.chanfield> assert [tags] expr over v (the value sent) and the locals in scope
+				idx := strings.Index(rest, " assert ")
+				if idx < 0 {
+					return fail(fmt.Errorf("at-send <pkg.Type.field> assert <expr>"))
+				}
+				c, err := mkClause(strings.TrimSpace(rest[idx+8:]))
+				if err != nil {
+					return fail(err)
+				}
+				cur.AtSends = append(cur.AtSends, &AtCall{Callee: strings.TrimSpace(rest[:idx]), Clause: *c})
 				for _, p := range c.Props {
 					cur.Props[p] = true
 				}
